@@ -335,7 +335,7 @@ impl LuaEngine {
     }
     
     /// Handle command errors with proper Redis semantics
-    fn handle_command_error_with_context(_lua_ctx: &Lua, error_msg: String, is_pcall: bool) -> LuaResult<LuaValue> {
+    fn handle_command_error_with_context(lua_ctx: &Lua, error_msg: String, is_pcall: bool) -> LuaResult<LuaValue> {
         let formatted_error = if error_msg.starts_with("ERR ") {
             error_msg
         } else {
@@ -343,8 +343,10 @@ impl LuaEngine {
         };
         
         if is_pcall {
-            // redis.pcall: Return nil, script continues
-            Ok(LuaValue::Nil)
+            // redis.pcall: the script continues and can inspect the error as a table {err = message}
+            let table = lua_ctx.create_table()?;
+            table.set("err", formatted_error)?;
+            Ok(LuaValue::Table(table))
         } else {
             // redis.call: Abort script execution immediately
             Err(mlua::Error::RuntimeError(format!("REDIS_CALL_ABORT:{}", formatted_error)))
@@ -400,6 +402,11 @@ impl LuaEngine {
                 RespFrame::BulkString(Some(Arc::new(s.as_bytes().to_vec())))
             }
             LuaValue::Table(table) => {
+                // An error table (as returned by redis.pcall) becomes an error reply
+                if let Ok(LuaValue::String(msg)) = table.get::<LuaValue>("err") {
+                    return RespFrame::Error(Arc::new(msg.as_bytes().to_vec()));
+                }
+                
                 // Convert Lua table to Redis array
                 let mut items = Vec::new();
                 for i in 1.. {
